@@ -59,6 +59,9 @@ theorem stateSet_plain {s : Nat} (h : isDisc s = false) : M.Rel RPlain (stateSet
   intro c
   simp [stateSet, RPlain, track, plainUp, h, bind, M.bind']
 
+attribute [local irreducible] M.bind' M.pure' M.throw M.tryCatch M.get M.modify M.emit M.liftE
+  M.assert M.int
+
 theorem encodeSeq_plain (m : Msg) : M.Rel RPlain (encodeSeq m) := by
   unfold encodeSeq
   rel_tac [RPlain.modify]
